@@ -132,16 +132,16 @@ def units(tier):
                         assumptions=["weights are not NaN and the bool field holds 0/1 (type invariant, precondition of the contract)"],
                         trusted=["cbmc 6.11 SAT back end, IEEE double semantics of CBMC"])
             res.append(dict(base, unit="K7_%s_%s_contract" % (site, wname), text=pre + fn + HARNESS,
-                            entry="h_op", enforce="OP", mode="proof", timeout=120))
+                            entry="h_op", enforce="OP", mode="proof", timeout=600))
             res.append(dict(base, unit="K7_%s_%s_lemma" % (site, wname), text=pre + fn + LEMMA,
-                            entry="h_lemma", replace=["OP"], mode="proof", timeout=120))
+                            entry="h_lemma", replace=["OP"], mode="proof", timeout=600))
         # identity elements
         log = []
         ids = _identity_exprs(log)
         body = "".join('  { cycle_t id = %s; __CPROVER_assert(!id.exists, "identity.%s.%d: identity passed to parallel_reduce has exists=false"); }\n'
                        % (e, rel.split("/")[-1], i) for rel, i, e in ids)
         txt = pre + "void h_id(void) {\n" + body + '  __CPROVER_assert(0, "VP_REACH end");\n}\n'
-        res.append(dict(lang="c", unit="K7_identity_%s" % wname, text=txt, entry="h_id", mode="proof", timeout=60,
+        res.append(dict(lang="c", unit="K7_identity_%s" % wname, text=txt, entry="h_id", mode="proof", timeout=600,
                         source="parallel_reduce call sites", rewrites=log, dropped=[],
                         functions={"parallel_reduce identity x%d [%s]" % (len(ids), wname): "proved"}))
     return res
